@@ -369,7 +369,8 @@ def b_regbridge(case, rng, P):
                 acc = {"R": "r", "W": "w"}.get(kind.__name__, "rw")
                 reg = csr.Register({"f": csr.Field(kind, w)}, access=acc)
                 hist.append(("reg", w, kind.__name__))
-                name = f"r{len(hist)}" if not tricky else rng.choice(["x", "mux", "bus", "b__x", "1__x", "1", "ch__1", "b"])
+                name = f"r{len(hist)}" if not tricky else rng.choice(["x", "mux", "bus", "b__x", "1__x", "1", "ch__1", "b",
+                                                                                "ch__1__1", "1__1", "x__1", "b__x__1", "x__2", "mux__1"])
                 try:
                     b.add(name, reg)
                 except ValueError as e:
@@ -377,6 +378,25 @@ def b_regbridge(case, rng, P):
                         raise
                     P.setdefault("refused_adds", []).append(judge_exception(e))
 
+    def trio():
+        # a look-alike pair plus the register whose own name is what a de-duplicated look-alike would be called
+        base = rng.choice([("ch", "1"), ("a", "x")])
+        steps = [("top", f"{base[0]}__{base[1]}"), ("cluster",) + base, ("top", f"{base[0]}__{base[1]}__1")]
+        rng.shuffle(steps)
+        for st_ in steps:
+            reg = csr.Register({"f": csr.Field(action.RW, rng.randint(1, dw))}, access="rw")
+            try:
+                if st_[0] == "top":
+                    b.add(st_[1], reg)
+                else:
+                    with b.Cluster(st_[1]):
+                        b.add(st_[2], reg)
+                hist.append(("trio",) + st_)
+            except ValueError as e:
+                P.setdefault("refused_adds", []).append(judge_exception(e))
+
+    if tricky and rng.random() < 0.4:
+        trio()
     add(0)
     P.update(aw=aw, dw=dw, history=hist[:20])
     mm = b.as_memory_map()
